@@ -1076,13 +1076,6 @@ var corpus = []string{
 	"m f=\"\xe2\x82\" 1",
 }
 
-func mix64(x uint64) uint64 {
-	x += 0x632BE59BD9B4E019
-	x = (x ^ (x >> 30)) * 0xBF58476D1CE4E5B9
-	x = (x ^ (x >> 27)) * 0x94D049BB133111EB
-	return x ^ (x >> 31)
-}
-
 func readCorpusDir(dir string) ([][]byte, error) {
 	ents, err := os.ReadDir(dir)
 	if err != nil {
@@ -1116,10 +1109,7 @@ func main() {
 	c.Extra["kv_cut_escape_aware"] = kvAware
 	c.Extra["string_value_raw_backslash_ok"] = strRawOK
 	verifclock.Set(nowNs)
-	// vh.NewRand(s) and vh.NewRand(s+1) are the same splitmix stream shifted by one draw (state =
-	// seed*γ+c, step γ), so consecutive VERIF_SEEDs would re-generate nearly the same cases; hash the
-	// seed first so that every seed gets an unrelated stream. Still ONE PRNG per run.
-	g := &gen{r: vh.NewRand(mix64(c.Seed))}
+	g := &gen{r: vh.NewRand(c.Seed)}
 	lines := c.N
 	if lines == 0 {
 		lines = 20000
